@@ -1,8 +1,41 @@
 import NetaddrVerif.Model.Proto
-/-! Driver ops of property C03 (stub: filled in by the property's model). -/
+import NetaddrVerif.Model.NetParse
+import NetaddrVerif.Driver.C01
+/-! Driver ops of property C03:
+    `net_parse be argkind arg implicit ver flags` (argkind ∈ str, tuple, copyA, copyN) ·
+    `abbrev S` · `expand S` · `net_str be F V P`. -/
 namespace NV.Driver.C03
-open NV NV.Proto
+open NV NV.Proto NV.AddrParse NV.NetParse
 
-def handle (_op : String) (_args : List String) : Option String := none
+def parseArg (kind arg : String) : Option NetArg :=
+  match kind with
+  | "str" => (parseStr arg).map .str
+  | "tuple" => do
+    match ← parseList arg with
+    | [v, p] => pure (.tuple (← parseInt v) (← parseInt p))
+    | _ => none
+  | "copyA" => (parseAddr arg).map .copyAddr
+  | "copyN" => (parseNet arg).map .copyNet
+  | _ => none
+
+def handle (op : String) (args : List String) : Option String :=
+  match op, args with
+  | "net_parse", [be, kind, arg, implicit, ver, flags] => do
+    let be ← NV.Driver.C01.parseBe be
+    let a ← parseArg kind arg
+    let ver ← NV.Driver.C01.parseOptNat ver
+    let flags ← flags.toNat?
+    match ipNetwork be a (implicit == "T") ver flags with
+    | .ok n => pure (showNet n)
+    | .error e => pure (showErr e)
+  | "abbrev", [s] => do pure (showStr (cidrAbbrevToVerbose (← parseStr s)))
+  | "expand", [s] => do
+    match expandPartialAddress (← parseStr s) with
+    | .ok t => pure (showStr t)
+    | .error e => pure (showErr e)
+  | "net_str", [be, f, v, p] => do
+    let be ← NV.Driver.C01.parseBe be
+    pure (showStr (netStr be ⟨← f.toNat?, ← v.toNat?, ← p.toNat?⟩))
+  | _, _ => none
 
 end NV.Driver.C03
